@@ -159,7 +159,7 @@ macro_rules! check_myers {
             }
             $ctx.shape(
                 $p.len() >= 2,
-                &("C09", $name, size_class($p.len()), (k == 0, k * 4 / $p.len().max(1)), exp.len().min(3), !$cfg.plain(), t.len() < $p.len(), ti.min(2)),
+                &("C09", $name, size_class($p.len()), (k == 0, k.min(1000) * 4 / $p.len().max(1)), exp.len().min(3), !$cfg.plain(), t.len() < $p.len(), ti.min(2)),
             );
         }
     }};
@@ -248,7 +248,7 @@ impl C09 {
                         }
                         Err(e) => ctx.violation(&format!("{}:panic:{}", $label, panic_site(&e)), desc(e)),
                     }
-                    ctx.shape(m >= 2, &("C09", $label, size_class(m), (k == 0, k * 4 / m.max(1)), exp.len().min(3), cap >= m));
+                    ctx.shape(m >= 2, &("C09", $label, size_class(m), (k == 0, k.min(1000) * 4 / m.max(1)), exp.len().min(3), cap >= m));
                 }
             }};
         }
@@ -350,8 +350,8 @@ impl Monitor for C09 {
         N_DIRECTED
             + match t {
                 Tier::Tiny => 12,
-                Tier::Quick => 16_000,
-                Tier::Thorough => 250_000,
+                Tier::Quick => 384000,
+                Tier::Thorough => 3840000,
             }
     }
     fn rule(&self) -> &'static str {
